@@ -107,6 +107,7 @@ static rlistx_t ref_channel_list(const char * s, int n) {
     }
 }
 
+static int fits32(long v) { return v >= -2147483647L - 1 && v <= 2147483647L; }
 static long ref_int(const char * s, rspan_t sp) {     /* what a decimal token denotes as an integer: its integer part */
     int i = sp.off, neg = 0;
     long v = 0;
@@ -182,8 +183,8 @@ static void check_body(const char * body, int n, int maxidx) {
             else if (res == SCPI_EXPR_OK) {
                 rentry_t * e = &nl.e[idx];
                 if ((isr ? 1 : 0) != e->range || (isr2 ? 1 : 0) != e->range) why = "range-flag";
-                else if (vf != (int32_t) ref_int(body, e->from)) why = "int-from-value";
-                else if (e->range && vt != (int32_t) ref_int(body, e->to)) why = "int-to-value";
+                else if (fits32(ref_int(body, e->from)) && vf != (int32_t) ref_int(body, e->from)) why = "int-from-value";      /* a value that does not fit 32 bits has no defined int32 image */
+                else if (e->range && fits32(ref_int(body, e->to)) && vt != (int32_t) ref_int(body, e->to)) why = "int-to-value";
                 else if (df != ref_dbl(body, e->from)) why = "double-from-value";
                 else if (e->range && dt != ref_dbl(body, e->to)) why = "double-to-value";
             }
@@ -210,8 +211,8 @@ static void check_body(const char * body, int n, int maxidx) {
                     if ((isr ? 1 : 0) != e->range) why = "range-flag";
                     else if ((int) dims != e->dims) why = "dimensions";
                     else for (d = 0; d < cap && d < e->dims && d < MAXDIM; d++) {
-                        if (vf[d] != (int32_t) ref_int(body, e->f[d])) { why = "from-value"; break; }
-                        if (e->range && vt[d] != (int32_t) ref_int(body, e->t[d])) { why = "to-value"; break; }
+                        if (fits32(ref_int(body, e->f[d])) && vf[d] != (int32_t) ref_int(body, e->f[d])) { why = "from-value"; break; }
+                        if (e->range && fits32(ref_int(body, e->t[d])) && vt[d] != (int32_t) ref_int(body, e->t[d])) { why = "to-value"; break; }
                     }
                     if (!why) for (d = e->dims; d < cap; d++) if (vf[d] != 77777 || vt[d] != 88888) { why = "value-slot-beyond-dimensions-written"; break; }
                 }
